@@ -1,0 +1,9 @@
+//go:build verif
+
+package verifhook
+
+import "go.uber.org/thriftrw/internal/frame"
+
+// SetFastPathFrameSize sets internal/frame's fast-path threshold and returns the
+// previous value (see frame.SetFastPathFrameSizeForVerif).
+func SetFastPathFrameSize(n int64) int64 { return frame.SetFastPathFrameSizeForVerif(n) }
